@@ -106,7 +106,8 @@ class RuleOrdering:
         processed = set()
         res = {}
         res["S"] = 0
-        for symbol in arborescence["S"]:
+        # The start symbol is not in the graph when it has no neighbour
+        for symbol in (arborescence["S"] if "S" in arborescence else []):
             if symbol not in processed:
                 res[symbol] = 1
                 processed.add(symbol)
